@@ -39,7 +39,7 @@ man = {
     ],
     "checks": checks,
     "not_applicable": na,
-    "notes": "All checks are generated-input searches against explicit oracles (see DESIGN.md). Exit 0 held / 1 VIOLATION / 2 infrastructure. known_findings.jsonl lists repaired (fixed:) and recorded (status known) defects.",
+    "notes": "All checks are generated-input searches against explicit oracles (see DESIGN.md). Exit 0 held / 1 VIOLATION / 2 infrastructure. known_findings.jsonl lists repaired (fixed:) and recorded (status known) defects. /repo commit 3cbeb28 (made by the task driver at the end of the design round) only carries go.mod go-directive lines written by go tooling; it is neither a hook nor a fix (DESIGN 8.2).",
 }
 json.dump(man, open(os.path.join(ROOT, "MANIFEST.json"), "w"), indent=1)
 print("checks:", [c["property_id"] for c in checks], "n/a:", [x["property_id"] for x in na])
